@@ -232,7 +232,8 @@ def gen_items(ctx):
         if rng.random() < 0.1 and ks:
             ks[rng.randrange(len(ks))] = -1
         if any(k < 0 for k in ks):
-            exp = Err()
+            # a negative entry has no multinomial coefficient; the book does not say what happens
+            exp = Skip()
         else:
             exp = math.factorial(sum(ks))
             for k in ks:
